@@ -130,6 +130,7 @@ class Engine(object):
         self.in_coroutine = False
         self.yield_hook = None       # set by the coroutine layer (rely.py)
         self.feas_checks = 0
+        self.spec_pol = 0
 
     # ------------------------------------------------------------------ utilities
     def oos(self, msg, node=None):
@@ -266,7 +267,21 @@ class Engine(object):
                 arrs.append(z3.Const('H.%s.%s.%d' % (key[0], key[1], i),
                                      z3.ArraySort(z3.IntSort(), s)))
             self._heap0[key] = tuple(arrs)
+            self.global_axioms += self.wf_field_facts(ty, tuple(arrs))
         return self._heap0[key]
+
+    def wf_field_facts(self, ty, arrs):
+        """container lengths / cardinalities stored in a heap field are never negative"""
+        if isinstance(ty, (TList, TDict, TSet)) and arrs:
+            o = z3.Int(fresh_name('o'))
+            n = z3.Select(arrs[-1], o)
+            return [FA([o], n >= 0, patterns=[n])]
+        return []
+
+    def wf_value_facts(self, v):
+        if isinstance(v.ty, (TList, TDict, TSet)) and v.t:
+            return [v.t[-1] >= 0]
+        return []
 
     SPECIAL_HEAP = {
         ('$vobj', 'has'): TSet(STR),       # comps: mem array, size
@@ -307,6 +322,24 @@ class Engine(object):
         st.hver += 1
         return st
 
+    def havoc_objs(self, st, key, ty, objs):
+        """havoc field `key` for the listed objects only: F' = Store(...Store(F, o1, v1)..., on, vn)
+        with fresh values (quantifier-free frame)"""
+        old = st.heap.get(key) or self.heap0(key, ty)
+        new = []
+        for i, a in enumerate(old):
+            cur = a
+            for o in objs:
+                v = z3.Const(fresh_name('hv.%s.%s.%d' % (key[0], key[1], i)), a.sort().range())
+                cur = z3.Store(cur, o, v)
+                if i == len(old) - 1 and isinstance(ty, (TList, TDict, TSet)):
+                    st = st.assume(v >= 0)
+            new.append(cur)
+        st = st.copy()
+        st.heap[key] = tuple(new)
+        st.hver += 1
+        return st
+
     def havoc_key(self, st, key, ty, keep=None):
         """fresh arrays for heap key; keep: z3 predicate over object id o -> Bool (objects whose
         value is preserved). returns new state (mutates a copy)."""
@@ -323,7 +356,7 @@ class Engine(object):
         st = st.copy()
         st.heap[key] = tuple(new)
         st.hver += 1
-        st.pc = st.pc + tuple(facts)
+        st.pc = st.pc + tuple(facts) + tuple(self.wf_field_facts(ty, tuple(new)))
         return st
 
     def alloc(self, st, cls):
@@ -373,6 +406,18 @@ class Engine(object):
                 return self.mk_list(ty.elem, es)
         if isinstance(ty, TDict) and isinstance(vt, TDict) and vt.k == NONE:
             return self.empty_dict(ty)
+        if isinstance(ty, TDict) and isinstance(vt, TDict) and vt.k == ty.k and ty.v == VAL and \
+                len(zsorts(vt.v)) == 1:
+            (ks,) = zsorts(ty.k)
+            k = z3.Const(fresh_name('k'), ks)
+            inj = self.coerce(SV(vt.v, z3.Select(val.t[1], k)), VAL)
+            if inj is not None:
+                return SV(ty, [val.t[0], z3.Lambda([k], inj.z), val.t[-1]])
+        if isinstance(ty, TList) and isinstance(vt, TList) and ty.elem == VAL and val.t:
+            i = z3.Int(fresh_name('i'))
+            inj = self.coerce(SV(vt.elem, z3.Select(val.t[0], i)), VAL)
+            if inj is not None:
+                return SV(ty, [z3.Lambda([i], inj.z), val.t[1]])
         if isinstance(ty, TSet) and isinstance(vt, TSet) and vt.elem == NONE:
             return self.empty_set(ty)
         return None
